@@ -236,6 +236,12 @@ def test_pictures():
         "% dots", "\\begin{scope}", "\\draw node [circle, inner sep=0pt, minimum size=6bp, \nfill=dotColorA] at (10.000000, 0) {};", "\\end{scope}", "", "\\end{scope}", "\\end{scope}", "\\end{tikzpicture}", "\\end{document}"])
     q = P.parse_tikz(tex)
     check(q.axis["length"] == 60 and q.links[0]["colour"] == (1, 2, 3) and q.boxes[0]["fill"] == (4, 5, 6) and q.dots[0]["pos"] == 10.0 and q.boxes[0]["text"] is None, "tikz parse")
+    q2 = P.parse_tikz_strict(tex)
+    check((q.axis, q.main_shift, len(q.links), q.boxes[0]["origin"], q.dots[0]["pos"]) == (q2.axis, q2.main_shift, len(q2.links), q2.boxes[0]["origin"], q2.dots[0]["pos"]), "strict and structural tikz parsers agree")
+    # cosmetic changes of the emitter must not make the document unparseable: no comment lines, extra blank lines
+    cosmetic = "\n".join(l for l in tex.split("\n") if not l.startswith("%")).replace("\\end{scope}\n\n", "\\end{scope}\n\n\n")
+    q3 = P.parse_tikz(cosmetic)
+    check(q3.axis == q.axis and len(q3.boxes) == 1 and q3.dots[0]["pos"] == 10.0, "tikz without comment lines parses")
     try:
         P.parse_svg(svg.replace('class="dot-layer"', 'class="unknown-layer"'))
         check(False, "unknown layer accepted")
